@@ -410,6 +410,7 @@ func checkConv(p *Prog, r *Report, pkg, prop string) {
 		ruleComparatorsSymmetric(p, r, map[string]bool{pkg: true}, map[string]int{"panos": 9, "nsx": 1}[pkg])
 		ruleSides(p, r, "R-SIDE", prop, map[string]bool{pkg: true}, map[string]int{"panos": 17, "nsx": 8}[pkg])
 	}
+	ruleRegexpConsts(p, r, "R-RX", prop, 1)
 	if pkg == "panos" || pkg == "nsx" {
 		ruleLookupsAudited(p, r, "R-LK", prop, map[string]int{"panos": 10, "nsx": 6}[pkg])
 	}
@@ -443,6 +444,7 @@ func checkConv(p *Prog, r *Report, pkg, prop string) {
 // ---- C18 ----
 
 func checkC18(p *Prog, r *Report) {
+	ruleRegexpConsts(p, r, "R-RX", "C18", 3)
 	ruleMergeCompleteness(p, r, "R18.1", map[string]bool{"panos": true, "nsx": true, "linux": true})
 	r.rule("R18.2", "Error discipline (E6) in the merge code (*/config.go of cisco, linux, nsx, panos and device/main.go's load functions): no error result is dropped; in particular a raw part that cannot be merged produces an error or abort instead of being skipped.")
 	ruleErrorDiscipline(p, r, "R18.2", map[string]bool{"cisco": true, "linux": true, "nsx": true, "panos": true}, "config.go")
